@@ -40,13 +40,21 @@ def main():
         i = args.index("--tier")
         tier = args[i + 1]
         del args[i:i + 2]
+    rnd = ""
+    if "--round" in args:
+        i = args.index("--round")
+        rnd = args[i + 1]
+        del args[i:i + 2]
     pid = args[0]
-    letters = args[1:] or ["A", "B"]
-    wt = f"/tmp/seed-{pid}"
+    letters = args[1:] or (["A", "B"] if not rnd else ["A", "B", "C"])
+    wt = f"/tmp/seed{rnd}-{pid}"
     for x in letters:
         patch = os.path.join(wt, "SEEDS", f"{x}.patch")
         demo = os.path.join(wt, "SEEDS", f"demo_{x}.py")
-        meta = {"property": pid, "seed": x, "author": "independent sub-agent (saw only the property text and a scratch worktree)"}
+        if not os.path.exists(patch):
+            print(json.dumps({"property": pid, "seed": x, "status": "no patch delivered"}))
+            continue
+        meta = {"property": pid, "seed": ("r" + rnd if rnd else "") + x, "author": "independent sub-agent (saw only the property text and a scratch worktree)"}
         sh(["git", "checkout", "--", "baize"], cwd=wt)
         env = dict(os.environ, PYTHONPATH=wt)
         r0 = sh(["/venv/bin/python", demo], cwd=wt, env=env, timeout=600)
@@ -71,7 +79,7 @@ def main():
                 p = os.path.join(wt, d)
                 shutil.rmtree(p, ignore_errors=True) if os.path.isdir(p) else (os.path.exists(p) and os.remove(p))
         notes = os.path.join(wt, "SEEDS", "NOTES.md")
-        dest = os.path.join(HERE, "seeded", f"{pid}-{x}")
+        dest = os.path.join(HERE, "seeded", f"{pid}-{'r' + rnd if rnd else ''}{x}")
         os.makedirs(dest, exist_ok=True)
         shutil.copy(patch, os.path.join(dest, "patch.diff"))
         shutil.copy(demo, os.path.join(dest, "demo.py"))
